@@ -14,7 +14,7 @@ def run(ctx):
             raise vlib.ToolError(f"TLC failed on Inventory.tla: {r['errors'][:2]}")
     s = vlib.harness(ctx, "inventory_replay", [r["out"]], timeout=7200)
     os.remove(r["out"])
-    if s["extra"]["inventories"] < 10000 or s["extra"]["checksum_shapes"] < 400:
+    if s["extra"]["inventories"] < 10000 or s["extra"]["checksum_shapes"] < 400 or s["extra"].get("queries_per_inventory") != 4:
         raise vlib.ToolError(f"too few cases: {s['extra']}")
     vlib.take_summary(ctx, s, "inventory_replay")
     ctx.add("evaluations", s["evaluations"])
@@ -26,8 +26,9 @@ def run(ctx):
     return vlib.finish(ctx, rule="TLC proves the filter+max_by_key and partial fold return an element of Acceptable (matching, not exceeded) and "
                        "nothing only when nothing matches, for every inventory (ordered, with duplicates) of <= 2 (thorough 3) artifacts over "
                        "version x {match, wrong OS, wrong arch, wrong metadata, fails requirement} and <= 4 (thorough 5) over version x "
-                       "{match, fails requirement}, for the total and the partial order; each is built with the real Inventory, resolved "
-                       "with resolve / partial_resolve, rendered and parsed back; 480 checksum shapes are parsed as Checksum<Sha256> and "
+                       "{match, fails requirement}, for the total and the partial order; each is built with the real Inventory once per "
+                       "query (linux|darwin x amd64|arm64; the classes are relative to the query, so a resolver that ignores or "
+                       "hard-wires an argument is seen), resolved with resolve / partial_resolve, rendered and parsed back; 480 checksum shapes are parsed as Checksum<Sha256> and "
                        "Checksum<Sha512>. Non-trivial: >= 2 matching artifacts / checksum near a valid length.", exhaustive=True)
 
 
